@@ -1,7 +1,7 @@
 #!/bin/bash
 # seed_check.sh <prop> <n> [check-prop] [extra runner args]: run ./check against the worktree with the seeded patch applied (never touches /repo)
 p=$1; n=$2; cp=${3:-$1}; shift; shift; shift
-wt=/tmp/wt-$p; d=/tmp/seed-out/$p/$n
+wt=/tmp/wt-$p; d=${SEED_OUT:-/tmp/seed-out}/$p/$n
 cd $wt && git checkout -q -- . && git apply $d/patch.diff || exit 2
 cd /verif && VERIF_REPO=$wt ./check $cp --no-evidence --jobs 6 "$@" 2>&1 | grep -E "^VIOLATION|^KNOWN|UNDECIDED|^\[$cp\] [0-9]" | cut -c1-200 > $d/check_$cp.txt
 git -C $wt checkout -q -- .
